@@ -68,19 +68,20 @@ impl DiameterServer {
                     let acceptor = native_tls::TlsAcceptor::new(identity.clone())?;
                     let acceptor = tokio_native_tls::TlsAcceptor::from(acceptor);
                     let (stream, peer_addr) = self.listener.accept().await?;
-                    match acceptor.accept(stream).await {
-                        Ok(stream) => {
-                            Self::handle_peer(
-                                peer_addr,
-                                stream,
-                                handler.clone(),
-                                Arc::clone(&dict),
-                            );
+                    // The handshake is driven by the peer: run it in the connection's own
+                    // task so that a slow or silent peer cannot hold up the accept loop.
+                    let handler = handler.clone();
+                    let dict = Arc::clone(&dict);
+                    tokio::spawn(async move {
+                        match acceptor.accept(stream).await {
+                            Ok(stream) => {
+                                Self::handle_peer(peer_addr, stream, handler, dict);
+                            }
+                            Err(e) => {
+                                log::error!("TLS handshake failed: {:?}", e);
+                            }
                         }
-                        Err(e) => {
-                            log::error!("TLS handshake failed: {:?}", e);
-                        }
-                    }
+                    });
                 }
                 None => {
                     let (stream, peer_addr) = self.listener.accept().await?;
